@@ -1082,6 +1082,64 @@ impl World {
     }
 
     /// shuts the world down; returns false if it had to be leaked
+    /// the matcher goes away first, injector handles (of the current and of older streams) survive it, keep pushing and
+    /// are dropped afterwards: items stay readable through the handles and are destroyed when the last handle goes
+    pub fn shutdown_nucleo_first(&mut self, rng: &mut Rng) {
+        release_all();
+        let Some(mut n) = self.nucleo.take() else { return };
+        for _ in 0..400 {
+            if !n.tick(25).running {
+                break;
+            }
+        }
+        for s in 0..=self.cur {
+            // matcher + snapshot let go; what remains are the injector handles
+            let handles = self.handles.iter().filter(|h| h.stream == s).count() as i64;
+            let aux = self.aux.lock().unwrap().get(&s).copied().unwrap_or(0).max(0);
+            let cnt = stream_handles(&self.reg, s);
+            if cnt > handles + aux {
+                stream_handles_add(&self.reg, s, -(cnt - handles - aux));
+            }
+        }
+        drop(n);
+        self.note("matcher dropped while injector handles are alive".into());
+        for k in 0..self.handles.len() {
+            if rng.coin() {
+                let n = rng.range(1, 20);
+                self.push_via(k, n, rng.coin());
+            }
+            let h = &self.handles[k];
+            let injected = h.inj.injected_items();
+            let mut seen = 0;
+            for i in 0..injected.min(3000) {
+                if let Some(it) = h.inj.get(i) {
+                    match verify_payload(&it, self.cols) {
+                        Ok((_, stream)) if stream == h.stream => seen += 1,
+                        Ok((id, stream)) => {
+                            let msg = format!("handle of stream {} reads item id {id} of stream {stream} after the matcher was dropped", h.stream);
+                            self.problems.push(("C11".into(), "item-of-another-stream".into(), msg));
+                            break;
+                        }
+                        Err(e) => {
+                            let msg = format!("index {i} read through an injector after the matcher was dropped: {e}");
+                            self.problems.push(("C11".into(), "item-damaged-while-reachable".into(), msg));
+                            break;
+                        }
+                    }
+                }
+            }
+            let completed = self.completed.lock().unwrap().get(&self.handles[k].stream).copied().unwrap_or(0);
+            if injected <= 3000 && seen < completed {
+                let msg = format!("{completed} pushes completed on stream {} but only {seen} items are readable through its injector after the matcher was dropped", self.handles[k].stream);
+                self.problems.push(("C11".into(), "item-lost-while-reachable".into(), msg));
+            }
+        }
+        while !self.handles.is_empty() {
+            let k = rng.below(self.handles.len());
+            self.drop_injector(k);
+        }
+    }
+
     pub fn shutdown(&mut self) {
         release_all();
         while !self.handles.is_empty() {
@@ -1478,7 +1536,20 @@ pub fn run_random(opts: &Opts, rep: &mut Report, props: &[&str]) {
         flush(&mut w, rep, props, &extra);
         let timeouts = with_ctl(|c| std::mem::take(&mut c.pause_timeouts));
         rep.add("pause-timeouts", timeouts);
-        w.shutdown();
+        if rng.chance(1, 4) {
+            // handles outlive the matcher
+            let k = w.new_injector();
+            if rng.coin() {
+                w.clone_injector(k);
+            }
+            let n = rng.range(1, 30);
+            w.push_via(k, n, rng.coin());
+            w.shutdown_nucleo_first(&mut rng);
+            rep.count("c11.histories-where-injectors-outlive-the-matcher");
+            flush(&mut w, rep, props, &extra);
+        } else {
+            w.shutdown();
+        }
         check_drops(&w, rep, props, &extra);
     }
     set_delays(false);
